@@ -30,3 +30,67 @@ package httpgen
 //@   ensures float: kind == protoreflect.FloatKind ==> ((err == nil) <==> (result1(strconv.ParseFloat(value, 32)) == nil)) && (err == nil ==> val == protoreflect.ValueOfFloat32(float32(result0(strconv.ParseFloat(value, 32)))))
 //@   ensures double: kind == protoreflect.DoubleKind ==> ((err == nil) <==> (result1(strconv.ParseFloat(value, 64)) == nil)) && (err == nil ==> val == protoreflect.ValueOfFloat64(result0(strconv.ParseFloat(value, 64))))
 //@   ensures other: kind == protoreflect.EnumKind || kind == protoreflect.BytesKind || kind == protoreflect.MessageKind || kind == protoreflect.GroupKind ==> err != nil
+
+// The request pipeline of one route: headers -> path -> query -> body (body verbs only) -> validate -> handler.
+//@ emitted func BindingMiddleware_closure1(next any, serviceHeaders any, methodHeaders any, pathParams any, queryParams any, httpMethod string, errorHandler any)
+//@   closure 1
+//@   ensures one_outcome: (count("ServeHTTP") - old(count("ServeHTTP"))) + (count("writeErrorWithHandler") - old(count("writeErrorWithHandler"))) == 1
+//@   ensures headers_checked: count("validateHeaders") == old(count("validateHeaders")) + 1
+//@   at-call bindPathParams requires headers_first: count("validateHeaders") > old(count("validateHeaders")) && lastNil("validateHeaders")
+//@   at-call bindQueryParams requires after_path: lastNil("validateHeaders") && count("bindPathParams") > old(count("bindPathParams")) && lastNil("bindPathParams")
+//@   at-call bindDataBasedOnContentType requires headers_first: count("validateHeaders") > old(count("validateHeaders")) && lastNil("validateHeaders")
+//@   at-call bindDataBasedOnContentType requires body_verb_only: httpMethod == "POST" || httpMethod == "PUT" || httpMethod == "PATCH"
+//@   at-call bindDataBasedOnContentType requires url_bound_ok: (count("bindPathParams") > old(count("bindPathParams")) ==> lastNil("bindPathParams")) && (count("bindQueryParams") > old(count("bindQueryParams")) ==> lastNil("bindQueryParams"))
+//@   at-call ServeHTTP requires headers_ok: count("validateHeaders") > old(count("validateHeaders")) && lastNil("validateHeaders")
+//@   at-call ServeHTTP requires binders_ok: (count("bindPathParams") > old(count("bindPathParams")) ==> lastNil("bindPathParams")) && (count("bindQueryParams") > old(count("bindQueryParams")) ==> lastNil("bindQueryParams"))
+//@   at-call ServeHTTP requires body_decoded: (httpMethod == "POST" || httpMethod == "PUT" || httpMethod == "PATCH") <==> count("bindDataBasedOnContentType") > old(count("bindDataBasedOnContentType"))
+//@   at-call ServeHTTP requires body_ok: count("bindDataBasedOnContentType") > old(count("bindDataBasedOnContentType")) ==> lastErrNil("bindDataBasedOnContentType")
+//@   at-call ServeHTTP requires validated: count("ValidateMessage") > old(count("ValidateMessage")) ==> lastErrNil("ValidateMessage")
+//@   at-call ServeHTTP requires url_and_validation_run_together: count("bindPathParams") > old(count("bindPathParams")) <==> count("ValidateMessage") > old(count("ValidateMessage"))
+//@   at-call ServeHTTP requires no_error_written: count("writeErrorWithHandler") == old(count("writeErrorWithHandler"))
+//@   at-call writeErrorWithHandler requires not_dispatched: count("ServeHTTP") == old(count("ServeHTTP")) && count("writeErrorWithHandler") == old(count("writeErrorWithHandler"))
+
+// Callees of the request pipeline (their own contracts are further below or still to be strengthened).
+// Error path (C10): the hook table of the documented ErrorHandler contract.
+//@ emitted func writeErrorWithHandler(w nethttp.ResponseWriter, r *nethttp.Request, err error, handler ErrorHandler)
+//@   requires !isNil(err)
+//@   ensures hook_once: handler != nil ==> count("handler") == old(count("handler")) + 1
+//@   ensures no_hook: handler == nil ==> count("handler") == old(count("handler"))
+//@   ensures at_most_one_body: (count("writeProtoMessageResponse") - old(count("writeProtoMessageResponse"))) + (count("writeResponseBody") - old(count("writeResponseBody"))) <= 1
+//@   ensures default_path: handler == nil ==> count("writeProtoMessageResponse") == old(count("writeProtoMessageResponse")) + 1 && lastArgIface("writeProtoMessageResponse", "2") == defaultErrorResponse(err) && lastArgInt("writeProtoMessageResponse", "3") == defaultErrorStatusCode(err)
+//@   at-call handler requires hook_gets_error: arg2 == err
+//@   at-call writeResponseBody requires message_present: !isNil(arg2)
+//@   at-call writeResponseBody requires hook_or_default: arg2 == ite(lastNil("handler"), defaultErrorResponse(err), lastRetIface("handler"))
+//@   at-call writeProtoMessageResponse requires message_present: !isNil(arg2)
+//@   at-call writeProtoMessageResponse requires hook_or_default: arg2 == ite(handler == nil || lastNil("handler"), defaultErrorResponse(err), lastRetIface("handler"))
+//@   at-call writeProtoMessageResponse requires default_status: arg3 == defaultErrorStatusCode(err)
+
+//@ emitted func defaultErrorResponse(err error) (r proto.Message)
+//@   pure
+//@   requires !isNil(err)
+//@   ensures present: !isNil(r)
+//@   ensures validation: isType(err, *sebufhttp.ValidationError) && asType(err, *sebufhttp.ValidationError) != nil ==> r == err
+//@   ensures handler_error: !errorsAs(err, *sebufhttp.ValidationError) && isType(err, *sebufhttp.Error) && asType(err, *sebufhttp.Error) != nil ==> r == err
+//@   ensures proto_error: !errorsAs(err, *sebufhttp.ValidationError) && !errorsAs(err, *sebufhttp.Error) && isType(err, proto.Message) ==> r == err
+//@   ensures plain_error: !errorsAs(err, *sebufhttp.ValidationError) && !errorsAs(err, *sebufhttp.Error) && !isType(err, proto.Message) ==> isType(r, *sebufhttp.Error) && asType(r, *sebufhttp.Error).Message == errmsg(err)
+
+//@ emitted func writeProtoMessageResponse(w nethttp.ResponseWriter, r *nethttp.Request, msg proto.Message, statusCode int, fallbackMsg string)
+//@ emitted func writeResponseBody(w nethttp.ResponseWriter, r *nethttp.Request, msg proto.Message)
+//@ emitted func marshalResponse(r *nethttp.Request, response any) (b []byte, err error)
+
+// Handler adapter (C10): what reaches the error path for each kind of handler error.
+//@ emitted func genericHandler_closure1(serve any, errorHandler any)
+//@   closure 1
+//@   ensures served_once: count("serve") == old(count("serve")) + 1
+//@   at-call writeErrorWithHandler requires only_on_failure: !lastErrNil("serve") || count("marshalResponse") > old(count("marshalResponse"))
+//@   at-call writeErrorWithHandler requires proto_errors_pass_through: !lastErrNil("serve") && count("marshalResponse") == old(count("marshalResponse")) && isType(lastErr("serve"), proto.Message) ==> arg2 == lastErr("serve")
+//@   at-call writeErrorWithHandler requires plain_errors_wrapped: !lastErrNil("serve") && count("marshalResponse") == old(count("marshalResponse")) && !isType(lastErr("serve"), proto.Message) ==> isType(arg2, *sebufhttp.Error) && asType(arg2, *sebufhttp.Error).Message == errmsg(lastErr("serve"))
+//@   at-call marshalResponse requires only_on_success: lastErrNil("serve")
+//@   at-call Write requires after_marshal: lastErrNil("marshalResponse") && lastErrNil("serve")
+//@ emitted func ValidateMessage(msg proto.Message) (err error)
+//@ emitted func convertProtovalidateError(err error) (r *sebufhttp.ValidationError)
+//@   ensures r != nil
+//@ emitted func bindPathParams(r *nethttp.Request, msg proto.Message, params []PathParamConfig) (verr *sebufhttp.ValidationError)
+//@ emitted func bindQueryParams(r *nethttp.Request, msg proto.Message, params []QueryParamConfig) (verr *sebufhttp.ValidationError)
+//@ emitted func bindDataBasedOnContentType(r *nethttp.Request, toBind any) (err error)
+//@ emitted func validateHeaders(r *nethttp.Request, serviceHeaders []*sebufhttp.Header, methodHeaders []*sebufhttp.Header) (verr *sebufhttp.ValidationError)
